@@ -4,11 +4,13 @@ CONSTANTS
     P = 1
     Vals = {0, 1, 2, 3}
     Targets = {0, 1, 2}
+    TopTargets = {0, 1}
     Kinds = {"mse", "gini", "entropy", "error"}
-    Depths = {0, 1, 2, 3, 4}
-    Msls = {1, 2, 3}
-    Msss = {0, 2, 3, 4}
-    ReplayMod = 150
+    Depths = {0, 1, 2, 3}
+    Msls = {1, 2}
+    Msss = {0, 2, 3}
+    TieOrders = "stable"
+    ReplayMod = 100
 SPECIFICATION Spec
 INVARIANT TypeOK
 INVARIANT RevalidationNeverFails
